@@ -73,7 +73,7 @@ def _case(draw):
     if draw(st.integers(0, 5)) == 0:
         fk = ck = "f32dtype"  # what a single-precision run returns
     case = {
-        "kind": "synthetic", "filename": draw(st.sampled_from(["c18_roundtrip.nc", "c18_roundtrip.nc", "fp_2024.06", "site_z2.5m", "export.v1.nc"])),
+        "kind": "synthetic", "stale_file": draw(st.integers(0, 2)) == 0, "filename": draw(st.sampled_from(["c18_roundtrip.nc", "c18_roundtrip.nc", "fp_2024.06", "site_z2.5m", "export.v1.nc"])),
         "nx": nx, "ny": ny, "nlev": nlev, "names": names, "timestamps": ts, "flx_kind": fk, "conc_kind": ck,
         "dx": draw(gen.logfl(0.1, 100.0)), "dy": draw(gen.logfl(0.1, 100.0)),
         # heights in the order the levels were requested: ascending or not
@@ -199,6 +199,12 @@ def check_case(case):
     path = fname
     out.label("filename=" + fname)
     try:
+        if case.get("stale_file"):
+            # an earlier export already sits under that name: saving again replaces it
+            stale = {n_: [dict(r, flx=np.asarray(r["flx"]) * 0 + 5.0, conc=np.asarray(r["conc"]) * 0 - 5.0) for r in lst]
+                     for n_, lst in results.items()}
+            save_footprints_to_netcdf(stale, cfg, path)
+            out.label("target-file-existed")
         save_footprints_to_netcdf(results, cfg, path)
         other = {n_: [dict(r, flx=np.asarray(r["flx"]) * 0 - 1.0, conc=np.asarray(r["conc"]) * 0 + 2.0) for r in lst]
                  for n_, lst in results.items()}
